@@ -300,3 +300,35 @@ def rule_predicate_args(run: Run, prog: Program, sites, quad: list[str]) -> None
                     f"{'that argument' if len(missing) == 1 else 'those arguments'} is not rejected", loc)
         else:
             run.add("E7.c2", fn.short, label, PROVEN, "predicate receives all four arguments", loc)
+
+
+def rule_quantifier(run: Run, prog: Program, sites, exc_name: str) -> None:
+    run.rule("E7.q", "a documented error guarded by a validity predicate over a collection is raised as soon as ONE element fails: the "
+                     "package idiom is `if not np.all(is_x(...)): raise`; `if not np.any(is_x(...))` raises only when every element fails and lets "
+                     "mixed collections through silently")
+    for fn, rs, ctx in sites:
+        guards = [c for c in ctx if c[0] == "if" and c[2] is True]
+        if not guards:
+            continue
+        t = guards[-1][1]
+        loc = f"{fn.module.rel}:{rs.lineno}"
+        label = norm_stmt(rs)[:100]
+        for node in ast.walk(t):
+            if not (isinstance(node, ast.UnaryOp) and isinstance(node.op, ast.Not) and isinstance(node.operand, ast.Call)):
+                continue
+            c = node.operand
+            red = c.func.attr if isinstance(c.func, ast.Attribute) else getattr(c.func, "id", "")
+            if red not in ("all", "any") or not c.args:
+                continue
+            preds = [x for x in ast.walk(c.args[0]) if isinstance(x, ast.Call) and (
+                (isinstance(x.func, ast.Name) and (x.func.id.startswith("is_") or x.func.id in ("isclose",)))
+                or (isinstance(x.func, ast.Attribute) and (x.func.attr.startswith("is_") or x.func.attr in ("contains", "isclose"))))]
+            if not preds:
+                continue
+            pname = ast.unparse(preds[0].func)
+            if red == "all":
+                run.add("E7.q", fn.short, label, PROVEN, f"raised unless all elements satisfy {pname}", loc)
+            else:
+                run.add("E7.q", fn.short, label, VIOLATION,
+                        f"`{ast.unparse(node)[:70]}`: {exc_name} is raised only when NO element satisfies {pname}; a collection in which some elements "
+                        f"fail the test is processed as if all had passed (silently wrong result for those positions)", loc)
